@@ -22,7 +22,19 @@ func RunOracles(w *World, spec Spec) error {
 		return OHealthExact(w)
 	}
 	if spec.Has("crash") {
-		return OCrash(w)
+		// crash now ...
+		if err := OCrash(w); err != nil {
+			return err
+		}
+		// ... and: commit now, then crash (every history is thereby also judged with a final commit,
+		// without spending a level of search depth on it)
+		if err := w.Commit(1, false); err != nil {
+			return err
+		}
+		if err := OCrash(w); err != nil {
+			return wrapViol(err, "after one more commit: ")
+		}
+		return nil
 	}
 	if spec.Has("twin") {
 		if w.TwinBase == nil {
